@@ -193,9 +193,12 @@ ld vf_cell_outside(const vf_cell *c, V3 p);
 ld vf_cell_area(const vf_cell *c);
 /* geometric neighbours: distinct cells returned by latLngToCell for points
  * pushed outward across the midpoint of every boundary segment by
- * frac*(centre->midpoint). Sorted. Returns count (<=10), or -1 on API error */
+ * frac*(centre->midpoint). Sorted. Returns count (<=10), -1 on API error, or -2
+ * when the oracle is undecided (cell so close to a pole that the push would have
+ * to exceed 35% to clear the coordinate resolution stated in C02) */
 int vf_geo_neighbors_c(const vf_cell *c, ld frac, H3Index out[MAX_CELL_BNDRY_VERTS]);
 int vf_geo_neighbors(H3Index h, H3Index out[MAX_CELL_BNDRY_VERTS]);
+int vf_geo_neighbors_cached(H3Index h, H3Index out[MAX_CELL_BNDRY_VERTS]);
 #define VF_PUSH_FRAC 0.01L
 
 /* ------------------------------------------------------------------ u64 map */
@@ -212,7 +215,8 @@ int64_t *vf_map_put(vf_map *m, uint64_t key, int64_t v, int *isnew);
 
 /* BFS on geometric adjacency from origin up to radius k (inclusive).
  * fills dist map; order[] (malloc'ed, caller frees) lists cells in BFS order;
- * returns count or -1 on failure. */
+ * returns count, -1 on API failure, -2 if the adjacency oracle is undecided
+ * (polar cell below coordinate resolution) somewhere in the ball. */
 int64_t vf_geo_bfs(H3Index origin, int k, vf_map *dist, H3Index **order);
 
 /* ------------------------------------------------------------------ generators */
